@@ -68,3 +68,11 @@ Theorem C09_second_insertion_creates_nothing : forall t s a s1 a',
   add_expr t s = Ok (a, s1) -> lookup_rec s1 t = Ok (Some a') -> add_expr t s1 = Ok (a', s1).
 Proof. exact second_insertion_creates_nothing. Qed.
 Print Assumptions C09_second_insertion_creates_nothing.
+
+(* re-inserting a term that is still represented by (an invocation equal to) its handle changes nothing and returns an
+   invocation EQUAL to the handle (EGraph/CongruenceFacts.v; `rep s t a` is decidable - repb - and evaluated per run) *)
+From SE Require Import EGraph.AddCoversFacts EGraph.CongruenceFacts.
+Theorem C09_reinsertion_returns_an_equal_invocation : forall s t a a' s',
+  inv3 s -> rep s t a -> add_expr t s = Ok (a', s') -> s' = s /\ eg_eq s' a a' = Ok true.
+Proof. exact reinsert_equal. Qed.
+Print Assumptions C09_reinsertion_returns_an_equal_invocation.
